@@ -261,6 +261,10 @@ def memo_tables(ctx, fn, ps):
 
 PURE_BUILTINS = {'sorted', 'reversed', 'list', 'tuple', 'set', 'frozenset', 'dict', 'sum', 'min', 'max', 'abs', 'round', 'len', 'zip', 'map', 'filter', 'enumerate', 'any', 'all'}
 PURE_STR_METHODS = {'strip', 'lstrip', 'rstrip', 'upper', 'lower', 'replace', 'format', 'title', 'join', 'split'}
+# methods that hand back a NEW object and leave the receiver alone (named tuples, strings, timestamps, pandas objects without inplace=True)
+PURE_METHODS = PURE_STR_METHODS | {'_replace', '_asdict', 'copy', 'ffill', 'bfill', 'pad', 'backfill', 'fillna', 'dropna', 'sort_values', 'sort_index', 'reset_index', 'set_index',
+                                   'rename', 'astype', 'normalize', 'tz_convert', 'tz_localize', 'reindex', 'drop', 'drop_duplicates', 'assign', 'shift', 'cumsum', 'cumprod',
+                                   'pct_change', 'to_numpy', 'tolist', 'union', 'intersection', 'difference'}
 
 
 def discarded_results(ctx, rule, prefixes, what):
@@ -277,7 +281,24 @@ def discarded_results(ctx, rule, prefixes, what):
                 if isinstance(f_, ast.Name) and f_.id in PURE_BUILTINS and ctx.M.resolve_name(fn.mod, f_.id) is None:
                     ctx.violation(rule, what, fn.site(s_), 'the result of %s(...) is discarded in %s: %s returns a new object and leaves its argument as it was' % (f_.id, fn.qn, f_.id),
                                   key='%s|discarded|%s|%s' % (rule, fn.qn, f_.id))
+                elif isinstance(f_, ast.Attribute) and f_.attr in PURE_METHODS and not any(k_.arg == 'inplace' for k_ in s_.value.keywords) \
+                        and not any(ctx.M.cls(t_) is not None and ctx.M.cls(t_).lookup(f_.attr) is not None for t_ in ctx.M.expr_types(fn, f_.value, ctx.M.local_env(fn))):
+                    ctx.violation(rule, what, fn.site(s_), 'the result of .%s(...) is discarded in %s: it returns a new object and leaves %s as it was' % (
+                        f_.attr, fn.qn, ast.unparse(f_.value)[:40]), key='%s|discarded|%s|%s' % (rule, fn.qn, f_.attr))
     ctx.holds(rule, what + ' (no discarded result of a value-returning builtin among %d call statements)' % n, None)
+    # the other classic: a callable created per iteration that reads the loop variable when it is finally CALLED.  Collected into a list (or built by an eager
+    # comprehension) and applied after the loop, every one of them sees the last element.
+    from .rules.c16 import late_bound_in
+    fns = [fn for fn in ctx.M.all_funcs() if fn.parent is None and any(fn.path.startswith(p_) for p_ in prefixes)]
+    for site_, names_, src_ in late_bound_in(fns, with_yield=False):
+        ctx.violation(rule, what, site_, 'the deferred step `%s` reads the loop variable%s %s at call time, i.e. after the loop has moved on: every collected callable works on the last element'
+                      % (src_[:70], 's' if len(names_) > 1 else '', ', '.join(names_)), key='%s|late-binding|%s' % (rule, site_.split(':')[0]))
+
+
+def unread_calls(t):
+    """calls to functions of the package that a term still contains un-inlined (the engine could not, or was told not to, read them through): a formula holding one
+    has not been read completely"""
+    return [s_ for s_ in T.subterms(t) if s_[0] == 'call' and s_[1][0] == 'fn'] if isinstance(t, tuple) else []
 
 
 def class_level_table(M, cls, fld):
